@@ -21,6 +21,17 @@ func (w *World) LoopTerminates(fn *ssa.Function, hb *ssa.BasicBlock) (bool, stri
 	case strings.HasPrefix(hb.Comment, "rangechan"):
 		return false, "range over a channel may block forever"
 	}
+	// go/ssa rotates `for i := range n` loops: the header is then the body block
+	// and carries the builder's own counter φ (#rangeint.iter)
+	for _, in := range hb.Instrs {
+		p, ok := in.(*ssa.Phi)
+		if !ok {
+			break
+		}
+		if p.Comment == "rangeint.iter" {
+			return true, "range loop over an integer: trip count fixed on entry"
+		}
+	}
 	fi := w.Info(fn)
 	var backs []int
 	for i, p := range hb.Preds {
